@@ -194,13 +194,4 @@ Definition wf (i : input) : Prop :=
       /\ NoDup (map fst (p_pre p))
   end.
 
-(* Known finding F21: RunTest._run_core returns after a failed setUp (and the cleanups) without consulting
-   force_failure, so an expectThat that mismatched in setUp before setUp raised, or in a cleanup run after
-   setUp raised, does not make the test fail: what setUp (or a later cleanup) raised is reported, a skip or
-   an expected failure included.  Delimited by: setUp raises and some executed expectThat mismatched. *)
-Definition finding_F21 (i : input) : bool :=
-  match i with
-  | ITest p => setup_raises p && expect_failed p
-  | _ => false
-  end.
-Definition findings (i : input) : list nat := if finding_F21 i then [21] else [].
+Definition findings (i : input) : list nat := [].
